@@ -774,8 +774,33 @@ class FnEmitter:
             elif t[0] == 'switch': succ[b] = [t[2]] + [l for _, l in t[3]]
             else: succ[b] = []
         entry = next(iter(parsed))
+        # distance from each block back to a given block (BFS over the CFG); used to lay loops out contiguously:
+        # among the successors of b, the one with the shortest way back to b (the innermost loop body) is placed
+        # right after b, successors that leave the cycle are placed last
+        names = list(parsed)
+        def dist_to(target):
+            # reverse BFS from target
+            pred = {}
+            for b, ss in succ.items():
+                for c in ss: pred.setdefault(c, []).append(b)
+            d = {target: 0}; q = [target]
+            while q:
+                x = q.pop(0)
+                for p_ in pred.get(x, []):
+                    if p_ not in d:
+                        d[p_] = d[x] + 1; q.append(p_)
+            return d
+        dcache = {}
+        def visit_order(b):
+            ss = succ[b]
+            if len(ss) < 2 or os.environ.get('LL2C_OLD_LAYOUT'): return list(reversed(ss))
+            if b not in dcache: dcache[b] = dist_to(b)
+            d = dcache[b]
+            INF = 10 ** 9
+            # visited first = placed last: decreasing distance back to b (exits first), stable for ties
+            return sorted(reversed(ss), key=lambda c: -d.get(c, INF))
         seen = set(); post = []
-        stack = [(entry, iter(reversed(succ[entry])))]
+        stack = [(entry, iter(visit_order(entry)))]
         seen.add(entry)
         while stack:
             b, it = stack[-1]
@@ -786,7 +811,7 @@ class FnEmitter:
             if nxt is None:
                 post.append(b); stack.pop()
             else:
-                seen.add(nxt); stack.append((nxt, iter(reversed(succ[nxt]))))
+                seen.add(nxt); stack.append((nxt, iter(visit_order(nxt))))
         order = list(reversed(post))
         parsed = collections.OrderedDict((b, parsed[b]) for b in order)  # unreachable blocks dropped
         body = []
